@@ -102,7 +102,7 @@ def run(ck):
         "values are symbolic r * prod(const^(e/4)): r from a grid of exact fourth powers x decades 10^-8..10^8 (Lorentz: Pythagorean rationals), so every root is exact; floats never enter TLC",
         "observed floats are matched to the specification's symbolic values with the library's own constants (unyt.physical_constants, long names) at 40 digits; rtol = the coarsest float type an object of the history had: 1e-12 (float64/complex128, integers), 1e-5 (float32/complex64), 2e-2 (float16)",
         "a number claim is made only where the formula value, in the result's unit, lies in the normal range (margin 4) of the result's float type",
-        "54 unit spellings (SI, prefixed, CGS, compound, other) of 13 dimensions; no offset (degC/degF) units; 13 dtypes (int8..int64, uint8..uint64, float16/32/64, complex64/128; all but float64 only in coherent SI units with values the dtype holds exactly or to its precision; complex data has zero imaginary part); shapes quantity / array / contiguous view / strided view (views of float and complex buffers only)",
+        "66 unit spellings (SI, prefixed, CGS, compound, other, registry-valued, code units, and the offset temperature scales degC/degF) of 13 dimensions; a reading y on an offset scale means (y + off) * scale with the exact offsets of Equiv!Offsets (273.15, 459.67); number claims about a result on an offset scale are made where |absolute value / scale| >= |off| / 1024 (8-byte floats) or |off| / 4 (narrower floats, matched at 4x the type's precision), objects written in degC/degF are float64 and hold numbers >= 1 K; a covered request on an INPUT in degC/degF is not required to return (the library refuses arithmetic on such readings), but what it returns must be the formula's value; 13 dtypes (int8..int64, uint8..uint64, float16/32/64, complex64/128; all but float64 only in coherent SI units with values the dtype holds exactly or to its precision; complex data has zero imaginary part); shapes quantity / array / contiguous view / strided view (views of float and complex buffers only)",
         "registry dimension: the default registry, or one custom registry (Msun=2e30 kg, AU=1.5e11 m, eV=1.6e-19 J, me=9e-31 kg, pc=3e16 m; code_length, code_mass, code_time, code_temperature) for float64 quantities/arrays; the value of a spelling is the base_value the library gives it in the registry the history's object was created in; a Unit object of the default registry is passed only for spellings that mean the same in both registries",
         "keyword settings: defaults (mu=0.6, gamma=5/3 as documented), mu=3/4, gamma=4/3, mu=gamma=7/5; keywords are only passed to equivalences that take them",
         "known findings are matched on (clause, equivalence, from, to, form, dtype, result dtype, numbers of the input)",
@@ -125,7 +125,7 @@ def run(ck):
     # the other dtypes: with 3 target spellings per dimension a diagonal of 3 keeps every (equivalence, from, to, dtype,
     # shape, entry point) combination, each with one of the target spellings
     diag2 = ck.q(3, 2)
-    diag3 = ck.q(6, 2)  # objects of the custom registry x {string, Unit of the input's registry, Unit of the default registry}
+    diag3 = ck.q(8, 2)  # objects of the custom registry x {string, Unit of the input's registry, Unit of the default registry}
     ml = ck.q(2, 3)
     depth = ck.q(4, 6)
     cfg_hist = _cfg(ck, "MC_C09_hist", "MC_C09_hist_run", MaxLen=ml, ExportLen=ml, Diag=ck.q(3, 2))
